@@ -15,7 +15,7 @@ one() {
   props=$(sed -n 's/^# props: //p' "$p" | head -1); props=${props:-$prop}
   rm -rf "$SCR"; mkdir -p "$SCR/v"
   rsync -a --exclude .git /repo/ "$SCR/repo/"
-  cp "$HERE/known_findings.json" "$SCR/v/"
+  cp "$HERE/known_findings.json" "$SCR/v/"; cp -r "$HERE/bounded" "$SCR/v/bounded"
   if ! (cd "$SCR/repo" && patch -p1 --quiet < "$p"); then echo "SELFTEST-ERROR cannot apply $p"; rm -rf "$SCR"; return; fi
   if ! (cd "$SCR/repo" && go build ./... ) >/dev/null 2>&1; then echo "SELFTEST-ERROR mutant does not compile: $p"; rm -rf "$SCR"; return; fi
   for q in $props; do
